@@ -229,13 +229,13 @@ Step ==
   /\ LET e == Log[l]
          why == Fails(e)
          ok == why = {} IN
-     /\ (IF ok THEN TRUE ELSE PrintT(<<"REJECT", l, e.idx, e.e, why>>))
+     /\ (IF ok THEN TRUE ELSE PrintT("REJECT " \o ToJson([l |-> l, idx |-> e.idx, e |-> e.e, why |-> why])))
      /\ nrej' = IF ok THEN nrej ELSE nrej + 1
      /\ lastW' = IF e.e = "W" THEN e ELSE IF e.e = "Reset" THEN <<>> ELSE lastW
      /\ lastR' = IF e.e = "R" /\ ~HasPrior(e) THEN e ELSE IF e.e = "Reset" THEN <<>> ELSE lastR
   /\ l' = l + 1
 
-Done == l = Len(Log) + 1 /\ PrintT(<<"DONE", Len(Log), nrej>>) /\ UNCHANGED vars
+Done == l = Len(Log) + 1 /\ PrintT("DONE " \o ToJson([n |-> Len(Log), nrej |-> nrej])) /\ UNCHANGED vars
 
 Next == Step \/ Done
 Spec == Init /\ [][Next]_vars
